@@ -160,7 +160,9 @@ def dft_19_20(node: ir.Node, op):
     dft_length = node.inputs[1] if len(node.inputs) > 1 else None
     inverse = _get_int_attribute(node, "inverse", 0)
     onesided = _get_int_attribute(node, "onesided", 0)
-    axis = _get_int_attribute(node, "axis", None)
+    # Up to opset 19 the axis is an attribute with default 1; from opset 20 it is an input
+    # with default -2, so the old default has to be made explicit as well.
+    axis = _get_int_attribute(node, "axis", 1)
     if axis is not None:
         axis_value = op.Constant(value_int=axis)
         return op.DFT(input, dft_length, axis_value, inverse=inverse, onesided=onesided)
